@@ -15,13 +15,13 @@ def scIn1Step (ms : Mid) (t : Txn1) (sum : Cur) (sci : ScIn1) : VM Cur := do
       | some p =>
         if sci.ucAddr ≠ p.addr then reject "siacoin input claims incorrect unlock conditions"
         else if p.maturity > ms.base.child then reject "siacoin input has immature parent"
-        else addC sum p.value
+        else if sum + p.value < curLimit then pure (sum + p.value) else reject "siacoin inputs overflow"
 
 /-- the balance part of `validateSiacoins` -/
 def v1ScBalance (t : Txn1) (inputSum : Cur) : VM Unit := do
   let o1 ← t.scOuts.foldlM (fun s o => addC s o.2.value) 0
   let o2 ← t.fcs.foldlM (fun s f => addC s f.2.payout) o1
-  let outputSum ← t.fees.foldlM (fun s f => addC s f) o2
+  let outputSum ← t.fees.foldlM (fun (s : Cur) f => if s + f < curLimit then pure (s + f) else reject "transaction outputs exceed inputs") o2
   if inputSum ≠ outputSum then reject "siacoin inputs do not equal outputs" else pure ()
 
 theorem validateSiacoins_eq (ms : Mid) (t : Txn1) :
@@ -57,14 +57,17 @@ theorem scIn1Step_ok_iff (ms : Mid) (t : Txn1) (sum : Cur) (sci : ScIn1) (s' : C
     · exact absurd h (reject_ne_ok _ _)
     split at h
     · exact absurd h (reject_ne_ok _ _)
-    obtain ⟨rfl, hlt⟩ := (addC_ok_iff _ _ _).1 h
-    rw [hp]
-    exact ⟨rfl, p, rfl, ⟨by omega, by simp_all, by simp_all, by omega⟩, hlt⟩
+    split at h
+    · rename_i hlt
+      simp at h; subst h
+      rw [hp]
+      exact ⟨rfl, p, rfl, ⟨by omega, by simp_all, by simp_all, by omega⟩, hlt⟩
+    · exact absurd h (reject_ne_ok _ _)
   · rintro ⟨rfl, p, hp, ⟨h1, h2, h3, h4⟩, hlt⟩
     rw [if_neg (by omega), if_neg (by simp [h2]), hp]
     simp only [Option.map_some, Option.getD_some]
-    rw [if_neg (fun hn => hn h3), if_neg (by omega)]
-    exact addC_eq_ok hlt
+    rw [if_neg (fun hn => hn h3), if_neg (by omega), if_pos hlt]
+    rfl
 
 /-- `validateSiacoins` accepts iff every input satisfies its rules (with the running input sum not
 overflowing) and the balance part accepts. -/
